@@ -134,6 +134,37 @@ func runEngineT(p *Prog, o *obls) {
 				t1bGet(p, o, fn, spec)
 			}
 		}
+		// accessors that hand the retained packet on to their caller (`func (s *stream) retained(seq) *Packet { lock;
+		// p := buf.Get(seq); unlock; return p }`): the obligation to release moves to the caller
+		fwd := map[*ssa.Function]bool{}
+		for _, fn := range p.Funcs {
+			instrsOf(fn, func(in ssa.Instruction) {
+				call, ok := in.(*ssa.Call)
+				if !ok || calleeName(&call.Call) != spec.get {
+					return
+				}
+				for _, b := range fn.Blocks {
+					if ret, ok := b.Instrs[len(b.Instrs)-1].(*ssa.Return); ok {
+						for _, r := range ret.Results {
+							if p.origin(r) == ssa.Value(call) {
+								fwd[fn] = true
+							}
+						}
+					}
+				}
+			})
+		}
+		for _, fn := range p.Funcs {
+			instrsOf(fn, func(in ssa.Instruction) {
+				call, ok := in.(*ssa.Call)
+				if !ok {
+					return
+				}
+				if sc := call.Call.StaticCallee(); sc != nil && fwd[sc] {
+					t1Caller(p, o, fn, call, spec)
+				}
+			})
+		}
 		if found == 0 {
 			o.undecided("T1", spec.typ, "-", "anchor unresolved: no accessor call / slot store found for the reference-counted type")
 		}
@@ -163,6 +194,19 @@ func t1Caller(p *Prog, o *obls, fn *ssa.Function, get *ssa.Call, spec refcountSp
 			}
 			m := before[last]
 			if m == 0 {
+				continue
+			}
+			// the reference is handed to the caller: the caller releases it (checked at the caller)
+			handsOn := false
+			for _, r := range last.(*ssa.Return).Results {
+				if p.origin(r) == ssa.Value(get) {
+					handsOn = true
+				}
+			}
+			if handsOn {
+				if m&6 != 0 {
+					problems = append(problems, fmt.Sprintf("the packet is returned to the caller at %s after it was released", p.instrPos(last)))
+				}
 				continue
 			}
 			if m&1 != 0 {
